@@ -273,6 +273,41 @@ func routingRule(c *Ctx) {
 		}
 	}
 	c.Check(good, "routing", "switches.route->resolveOutputBufIdx", p.Decl(rt).Pos(), "the output port is looked up with the flit's route key", "the output port of a flit is not resolved from its RouteTo key")
+	// every flit's output port is the lookup result for that very flit
+	nStores := 0
+	for _, fn := range nocFns(p, []string{"noc/networking/switching/switches"}) {
+		for _, b := range fn.Blocks {
+			for _, in := range b.Instrs {
+				st, ok := in.(*ssa.Store)
+				if !ok {
+					continue
+				}
+				fo := FieldOf(st.Addr)
+				if fo == nil || fo.Name() != "OutputBufIdx" {
+					continue
+				}
+				nStores++
+				why := ""
+				call, isCall := st.Val.(*ssa.Call)
+				if !isCall || call.Common().StaticCallee() == nil || call.Common().StaticCallee().Name() != "resolveOutputBufIdx" {
+					why = "a flit's output port is not the result of a routing lookup made for that flit (it is taken from " + VKey(st.Val) + "): flits of different messages that interleave on one input port would follow another message's route and never reach their destination"
+				} else {
+					own := false
+					args := call.Common().Args
+					for v := range DataSlice(fn, args[len(args)-1]) {
+						if (valueReadsField(v, "RouteTo")) && memRoot(addrOfRead(v)) == memRoot(st.Addr) {
+							own = true
+						}
+					}
+					if !own {
+						why = "the routing lookup whose result is stored in a flit is not made with that flit's own RouteTo"
+					}
+				}
+				c.Check(why == "", "routing", SSAFuncKey(fn)+"@OutputBufIdx", st.Pos(), "each flit is routed by a lookup of its own destination", why)
+			}
+		}
+	}
+	c.Check(nStores >= 1, "routing", "OutputBufIdx-stores", token.NoPos, "routing decision stores found", "no store of a routing decision into a flit was found")
 	t := ExtractTable(p, rf, TableConfig{Domain: []int{0, 1}})
 	okT := len(t.Unsupported) == 0 && len(t.Rows) > 0
 	for _, r := range t.Rows {
@@ -442,6 +477,26 @@ func runC31(c *Ctx) {
 					if !rb || !ro {
 						why = "the byte count that is divided into flits does not derive from TrafficBytes and EncodingOverhead"
 					}
+					// a fractional overhead byte still occupies a byte: float→int conversions in the
+					// byte count must round up
+					for v := range sl {
+						cv, isConv := v.(*ssa.Convert)
+						if !isConv {
+							continue
+						}
+						fromB, _ := cv.X.Type().Underlying().(*types.Basic)
+						toB, _ := cv.Type().Underlying().(*types.Basic)
+						if fromB == nil || toB == nil || fromB.Info()&types.IsFloat == 0 || toB.Info()&types.IsInteger == 0 {
+							continue
+						}
+						rounded := false
+						if cl, isCall := cv.X.(*ssa.Call); isCall && cl.Common().StaticCallee() != nil && cl.Common().StaticCallee().Name() == "Ceil" {
+							rounded = true
+						}
+						if !rounded && why == "" {
+							why = "the encoding overhead is truncated instead of rounded up when converted to whole bytes: a message whose fractional overhead byte crosses a flit boundary is split into one flit fewer than its encoded size requires"
+						}
+					}
 					// the computed edge is taken only when TrafficBytes > 0
 					gated := false
 					for _, fact := range FactsAt(calcPred) {
@@ -576,4 +631,17 @@ func valueReadsField(v ssa.Value, name string) bool {
 		}
 	}
 	return false
+}
+
+// addrOfRead returns the address a load/field-extraction reads from (nil if none).
+func addrOfRead(v ssa.Value) ssa.Value {
+	switch x := stripConv(v).(type) {
+	case *ssa.UnOp:
+		return x.X
+	case *ssa.FieldAddr:
+		return x
+	case *ssa.Field:
+		return x.X
+	}
+	return nil
 }
